@@ -402,20 +402,25 @@ def run_property(mod, ctx, replay_path=None):
   cases = mod.eval_cases(ctx, descs)
 
   # 3. model side, in Coq
-  idx_with_coq = [i for i, c in enumerate(cases) if c.coq is not None]
+  terms, owner = [], []
+  for i, c in enumerate(cases):
+    if c.coq is None:
+      continue
+    for t in (c.coq if isinstance(c.coq, (list, tuple)) else [c.coq]):
+      terms.append(t)
+      owner.append(i)
+  idx_with_coq = sorted(set(owner))
   bad, coq_errors = ([], [])
   if ok_build:
-    bad, coq_errors = run_coq_cases(ctx, mod.HMODULE, [cases[i].coq for i in idx_with_coq],
-                                    shard=getattr(mod, "SHARD", 250))
-  bad_cases = [idx_with_coq[b] for b in bad]
+    bad, coq_errors = run_coq_cases(ctx, mod.HMODULE, terms, shard=getattr(mod, "SHARD", 250))
+  bad_cases = sorted(set(owner[b] for b in bad))
   extra_bad = {}
   if ok_build:
     for fn in getattr(mod, "EXTRA_CHECK_FNS", []):
-      b2, e2 = run_coq_cases(ctx, mod.HMODULE, [cases[i].coq for i in idx_with_coq],
-                             shard=getattr(mod, "SHARD", 250), check_fn=fn)
+      b2, e2 = run_coq_cases(ctx, mod.HMODULE, terms, shard=getattr(mod, "SHARD", 250), check_fn=fn)
       coq_errors.extend(e2)
       if b2:
-        extra_bad[fn] = [idx_with_coq[b] for b in b2]
+        extra_bad[fn] = sorted(set(owner[b] for b in b2))
 
   # 4. verdict
   known = [e for e in load_known(pid) if e.get("status") == "open"]
@@ -509,8 +514,8 @@ def run_property(mod, ctx, replay_path=None):
       "rule": mod.RULE,
       "samples": samples,
       "histogram": hist,
-      "model_vs_implementation_compared": len(idx_with_coq),
-      "disagreements_checked": len(idx_with_coq),
+      "model_vs_implementation_compared": len(terms),
+      "disagreements_checked": len(terms),
       "disagreements_found": len(bad_cases),
       "property_predicate_failures": len(pred_fail_cases),
       "known_findings_fired": {k: len(v) for k, v in known_fired.items()},
